@@ -297,6 +297,24 @@ def step (s : State) (toks : List String) : State × String :=
       | some k => (s, showOutcome (genNaryKeys bn keys (some k)))
       | none => (s, "bad-op")
     | _, _ => (s, "bad-op")
+  -- `znary <off> <n> <N>` / `zbig <off> <N> <nodes> <hosts>`: the generators (first server as root) over
+  -- identities whose deprecated ID field is unset, keys shifted by `off`: the trees are those of
+  -- `nary … 0` / `big` — node construction depends on the public key alone
+  | ["znary", off, n, bn] =>
+    match off.toNat?, n.toNat?, bn.toNat? with
+    | some off, some n, some bn =>
+      if off > 1000000 ∨ n = 0 ∨ n > 4096 then (s, "bad-op") else (s, showOutcome (genNary bn (some 0) n))
+    | _, _, _ => (s, "bad-op")
+  | ["zbig", off, bn, nodes, hosts] =>
+    match off.toNat?, bn.toNat?, nodes.toNat?, Util.natList hosts with
+    | some off, some bn, some nodes, some hosts =>
+      if off > 1000000 ∨ bn = 0 ∨ nodes > 100000 ∨ hosts.isEmpty then (s, "bad-op") else
+      (s, match genBig { N := bn, nodes := nodes, hosts := hosts } with
+          | .tree lv => showTree (flatten lv)
+          | .noTree => "none"
+          | .panic => "panic"
+          | .hang => "hang")
+    | _, _, _, _ => (s, "bad-op")
   -- `bigempty <N> <nodes>`: GenerateBigNaryTree on a roster without servers
   | ["bigempty", bn, nodes] =>
     match bn.toNat?, nodes.toNat? with
